@@ -389,7 +389,7 @@ impl From<&Model> for EnergyProps {
             .map(|day_idx| {
                 schedules_as_days
                     .iter()
-                    .map(|s| s[day_idx])
+                    .filter_map(|s| s.get(day_idx).copied())
                     .collect::<Vec<_>>()
             })
             .map(|mut dv| {
